@@ -57,7 +57,7 @@ Definition cmd_no_cr (k : kcmd) : bool :=
 Definition view_cmd (k : kcmd) (zombie : bool) : pview :=
   {| v_pdir := true; v_stat := Some zombie; v_comm := bs "x";
      v_cmdline := FData (k_cmdline k); v_environ := FData [];
-     v_exe := LENOENT; v_cwd := LENOENT; v_xfiles := [] |}.
+     v_exe := LENOENT; v_cwd := LENOENT; v_paths := [] |}.
 
 (* ------------------------------------------------------------ /proc/<pid>/environ *)
 Inductive eitem :=
@@ -115,7 +115,7 @@ Fixpoint spec_env (items : list eitem) : list (bytes * bytes) :=
 Definition view_env (r : kenv) : pview :=
   {| v_pdir := true; v_stat := Some false; v_comm := bs "x";
      v_cmdline := FData []; v_environ := FData (k_environ r);
-     v_exe := LENOENT; v_cwd := LENOENT; v_xfiles := [] |}.
+     v_exe := LENOENT; v_cwd := LENOENT; v_paths := [] |}.
 
 (* ------------------------------------------------------------ exe / cwd links *)
 (* d_path of the link's dentry: the path, " (deleted)" appended when the dentry
@@ -145,35 +145,45 @@ Definition to_link (r : klink) : link_res :=
   LTarget (k_link r) (if l_lit_exists r then SExists else SMissing).
 
 (* ------------------------------------------------------------ exe() with fallback; name() *)
+Inductive withhold := WENOENT | WESRCH | WEACCES.   (* errno of readlink(/proc/pid/exe) *)
 Record kproc := {
   p_comm : bytes;                 (* task->comm: at most 15 bytes *)
   p_cmd : kcmd;
-  p_exe : option klink;           (* None: the kernel withholds the link (ENOENT/ESRCH) *)
-  p_esrch : bool;                 (* which errno it withholds it with *)
-  p_xfiles : list bytes }.        (* absolute paths that are executable regular files *)
+  p_exe : option klink;           (* None: the kernel does not give the link *)
+  p_how : withhold;               (* ... and with which errno (EACCES = denied) *)
+  p_paths : list (bytes * pkind) }.   (* what exists: executable files, other files, directories *)
 
 Definition view_proc (r : kproc) : pview :=
   {| v_pdir := true; v_stat := Some false; v_comm := p_comm r;
      v_cmdline := FData (k_cmdline (p_cmd r)); v_environ := FData [];
      v_exe := match p_exe r with
               | Some l => to_link l
-              | None => if p_esrch r then LESRCH else LENOENT
+              | None => match p_how r with WENOENT => LENOENT | WESRCH => LESRCH | WEACCES => LEACCES end
               end;
-     v_cwd := LENOENT; v_xfiles := p_xfiles r |}.
+     v_cwd := LENOENT; v_paths := p_paths r |}.
 
 Definition wf_proc (r : kproc) : bool :=
   wf_cmd (p_cmd r) && match p_exe r with Some l => wf_link l | None => true end
   && (length (p_comm r) <=? 15)%nat.
 
-Definition spec_exe (r : kproc) : bytes :=
+(* "an absolute path to an executable file": absolute, a regular file, executable.
+   A directory (searchable, so X_OK-accessible) or a file without x bit is not one. *)
+Definition exec_file (ps : list (bytes * pkind)) (p : bytes) : bool :=
+  prefixb [47] p && match path_kind ps p with Some PRegX => true | _ => false end.
+
+Definition spec_exe (r : kproc) : outcome bytes :=
   match p_exe r with
-  | Some l => l_path l
+  | Some l => Val (l_path l)
   | None =>
+    let otherwise := match p_how r with WEACCES => Exc AccessDenied | _ => Val [] end in
     match spec_cmdline (p_cmd r) with
-    | a0 :: _ => if prefixb [47] a0 && existsb (beqb a0) (p_xfiles r) then a0 else []
-    | [] => []
+    | a0 :: _ => if exec_file (p_paths r) a0 then Val a0 else otherwise
+    | [] => otherwise
     end
   end.
+(* the answer is remembered, except on the denied path *)
+Definition spec_cached (r : kproc) : bool :=
+  match p_exe r, p_how r with None, WEACCES => false | _, _ => true end.
 
 (* the kernel's name, unless it fills all 15 bytes and the basename of
    cmdline()[0] starts with it *)
